@@ -12,7 +12,10 @@ cp $SRC/patch.diff $SRC/demo.py $OUT/ 2>/dev/null
 ( cd $WT && PYTHONPATH=$WT timeout 600 /venv/bin/python $OUT/demo.py > $OUT/demo_clean.log 2>&1 ); CLEAN=$?
 if ! git -C $WT apply $OUT/patch.diff 2> $OUT/apply.log; then echo "$NAME: patch does not apply"; exit 2; fi
 ( cd $WT && PYTHONPATH=$WT timeout 600 /venv/bin/python $OUT/demo.py > $OUT/demo_patched.log 2>&1 ); PATCHED=$?
+cp /verif/evidence/$P.json /tmp/.evidence_$P.keep 2>/dev/null      # the evidence file describes runs on /repo, not on a changed tree
 ( cd /verif && VERIF_REPO=$WT timeout 1500 ./check $P quick > $OUT/check_quick.log 2>&1 ); CHK=$?
+cp /verif/evidence/$P.json $OUT/evidence_changed_tree.json 2>/dev/null
+if [ -f /tmp/.evidence_$P.keep ]; then mv /tmp/.evidence_$P.keep /verif/evidence/$P.json; fi
 REPLAY=$(grep -m1 '^VIOLATION' $OUT/check_quick.log | sed 's/.*replay=\([^ ]*\).*/\1/')
 if [ -n "$REPLAY" ] && [ -f /verif/$REPLAY ]; then cp /verif/$REPLAY $OUT/replay.json; fi
 rm -f /verif/replays/${P}-*.json
